@@ -270,6 +270,10 @@ func init() {
 		} else {
 			e.fail("frameworkImpl.Evictor not found")
 		}
+		// scope of that lock object: 0 a package-level variable, 1 a field of the frameworkImpl behind <recv>.handle (one per
+		// framework = one per PROFILE), 2 a field of the proxy itself, 3 anything else
+		scope := 3
+		perProfile, shareLimiter := e.c16ProfileFacts()
 		shared := false
 		if len(w.lockExpr) == 1 {
 			le := w.lockExpr[0]
@@ -286,18 +290,28 @@ func init() {
 								for _, id := range s.(*ast.ValueSpec).Names {
 									if id.Name == le {
 										shared = true
+										scope = 0
 									}
 								}
 							}
 						}
 					}
 				}
-			case strings.HasPrefix(le, recvName+".handle."):
-				shared = true
+			case strings.HasPrefix(le, recvName+".handle.") && strings.Count(le, ".") == 2:
+				// one lock per framework: shared by the callers of ONE profile only; the descheduler builds a framework per
+				// profile and hands the same limiter to all of them
+				scope = 1
+				shared = !(perProfile && shareLimiter)
+			case strings.HasPrefix(le, recvName+".") && strings.Count(le, ".") == 1:
+				scope = 2
+				shared = !fresh && !(perProfile && shareLimiter)
 			default:
-				shared = !fresh
+				shared = false
 			}
 		}
+		fmt.Fprintf(&e.out, "/-- scope of the lock object evictorProxy.Evict takes (%v): 0 package-level variable, 1 field of the frameworkImpl behind the proxy's handle, 2 field of the proxy, 3 other -/\ndef proxyLockScope : Nat := %d\n", w.lockExpr, scope)
+		fmt.Fprintf(&e.out, "/-- profile.NewMap builds one framework per profile: NewFramework is reached from inside its loop over the profiles -/\ndef profileFrameworkPerProfile : Bool := %v\n", perProfile)
+		fmt.Fprintf(&e.out, "/-- descheduler.New passes ONE WithEvictionLimiter option to profile.NewMap, which forwards its option list unchanged to every NewFramework call -/\ndef profilesShareLimiter : Bool := %v\n", shareLimiter)
 		fmt.Fprintf(&e.out, "/-- frameworkImpl.Evictor() returns a new proxy per call -/\ndef evictorFreshPerCall : Bool := %v\n", fresh)
 		fmt.Fprintf(&e.out, "/-- the lock taken by evictorProxy.Evict (%v) is one object for all callers of handle.Evictor().Evict -/\ndef proxyLockShared : Bool := %v\n", w.lockExpr, shared)
 		e.c16ArbFacts()
@@ -305,6 +319,70 @@ func init() {
 		e.c16CycleFacts()
 		e.c16GlueFacts()
 	}
+}
+
+// ---- how the frameworks and the limiter are put together (pkg/descheduler/profile/profile.go NewMap / newProfile,
+// pkg/descheduler/descheduler.go New).  perProfile: NewMap has a range loop whose body reaches frameworkruntime.NewFramework
+// (directly or through newProfile).  shareLimiter: the variadic option parameter of NewMap is forwarded as `opts...` down to
+// NewFramework, and the NewMap call in package descheduler carries exactly one WithEvictionLimiter(...) argument.
+func (e *ext) c16ProfileFacts() (perProfile, shareLimiter bool) {
+	prof := "pkg/descheduler/profile"
+	callsNewFramework := func(n ast.Node) (found, forwards bool) {
+		ast.Inspect(n, func(m ast.Node) bool {
+			if c, ok := m.(*ast.CallExpr); ok && c16SelCall(c, "NewFramework") {
+				found = true
+				if c.Ellipsis.IsValid() {
+					forwards = true
+				}
+			}
+			return true
+		})
+		return
+	}
+	npFound, npForwards := false, false
+	if fd := e.funcDecl(prof, "", "newProfile"); fd != nil && fd.Body != nil {
+		npFound, npForwards = callsNewFramework(fd.Body)
+	}
+	fd := e.funcDecl(prof, "", "NewMap")
+	if fd == nil || fd.Body == nil {
+		e.fail("profile.NewMap not found")
+		return false, false
+	}
+	forwards := false
+	ast.Inspect(fd.Body, func(n ast.Node) bool {
+		rs, ok := n.(*ast.RangeStmt)
+		if !ok {
+			return true
+		}
+		if f, fw := callsNewFramework(rs.Body); f {
+			perProfile = true
+			forwards = forwards || fw
+		}
+		ast.Inspect(rs.Body, func(m ast.Node) bool {
+			if c, ok := m.(*ast.CallExpr); ok && c16SelCall(c, "newProfile") && npFound {
+				perProfile = true
+				if c.Ellipsis.IsValid() && npForwards {
+					forwards = true
+				}
+			}
+			return true
+		})
+		return true
+	})
+	limiterOpts := 0
+	for _, f := range e.dir("pkg/descheduler") {
+		ast.Inspect(f, func(n ast.Node) bool {
+			if c, ok := n.(*ast.CallExpr); ok && c16SelCall(c, "NewMap") {
+				for _, a := range c.Args {
+					if c16SelCall(a, "WithEvictionLimiter") {
+						limiterOpts++
+					}
+				}
+			}
+			return true
+		})
+	}
+	return perProfile, forwards && limiterOpts == 1
 }
 
 // ---- existingPodMigrationJob (filter.go): which index lookups it makes and under which guard.  Every mention of a job
